@@ -3,6 +3,7 @@ from __future__ import annotations
 
 import itertools
 import json
+import os
 
 import anyio
 
@@ -302,6 +303,44 @@ async def run_sequences(seqs):
     return out
 
 
+async def _run_with_stdout_eof(descs, after):
+    """The child closes its STDOUT after `after` messages (a one-way / sink-style server) but keeps reading its stdin: what
+    the application sends afterwards is still to be written."""
+    proc = FakeProcess()
+    with patched_open_process(proc):
+        client = new_client()
+        async with client:
+            _r, w = client.get_streams()
+            alive = True
+            for k, d in enumerate(descs):
+                if k == after:
+                    await writer_idle(client, proc)
+                    proc.stdout.close()
+                    for _ in range(20):
+                        await anyio.sleep(0)
+                if not await send_or_giveup(w, build(d)[0]):
+                    alive = False
+                    break
+            ok = alive and await writer_idle(client, proc)
+            return list(proc.stdin.writes), proc.stdin.closed, ok
+
+
+def check_stdout_eof(ctx, seqs):
+    """metamorphic: the bytes written for a sequence do not depend on whether the child's stdout has reached EOF meanwhile"""
+    picked = [(d, c) for d, c in seqs if 2 <= len(d) <= 6 and not c and all(build(x)[2] for x in d)][:ctx.budget(60, 400)]
+    normal = anyio.run(run_sequences, picked)
+    for (descs, _c), (writes, _closed, _idle) in zip(picked, normal):
+        for after in (0, 1):
+            w2, closed2, ok2 = anyio.run(_run_with_stdout_eof, descs, after)
+            case = {"messages": descs, "close": False, "child_closes_its_stdout_after": after}
+            ctx.case(case, nontrivial=True)
+            ctx.count("stdout-eof:after-%d" % after)
+            ctx.spec_total += 1
+            if w2 != writes or closed2:
+                ctx.spec_violation("writes-depend-on-the-child's-stdout" if not closed2 else "stdin-closed-while-stream-open:stdout-eof",
+                                   case, f"{len(writes)} writes while stdout is open, {len(w2)} once it has reached EOF; stdin closed={closed2}")
+
+
 async def _probe_policy():
     proc = FakeProcess()
     with patched_open_process(proc):
@@ -513,7 +552,38 @@ def explore(ctx, drv):
                          "bytes on the child's stdin: model != implementation")
         rows.append((case, descs, close, writes, closed))
     judge_all(ctx, drv, rows)
+    check_fallback_backend(ctx, drv, seqs)
+    check_stdout_eof(ctx, seqs)
     ctx.exhaustive = True
+
+
+def check_fallback_backend(ctx, drv, seqs):
+    """The same writer under the OTHER validation back end (MCP_FORCE_FALLBACK=1: the typed messages are then the home-grown
+    classes and THEIR model_dump_json writes the line): the short sequences (every variant x every payload) in a subprocess,
+    judged by the same spec oracle.  No model in between (the model is fed the Pydantic serialisers' results)."""
+    import subprocess
+    import tempfile
+    # (sequences of serialisable messages only: what counts as unserialisable differs between the back ends by design - the
+    # fallback's dumps stringifies unknown objects - and the dropped-alone clause is judged on the Pydantic run above)
+    short = [(d, c) for d, c in seqs if 1 <= len(d) <= 3 and all(build(x)[2] for x in d)][:ctx.budget(600, 4000)]
+    with tempfile.TemporaryDirectory(prefix="c06-fb-") as tmp:
+        ip, op = os.path.join(tmp, "in.json"), os.path.join(tmp, "out.json")
+        json.dump([[d, c] for d, c in short], open(ip, "w", encoding="utf-8"))
+        env = dict(os.environ, MCP_FORCE_FALLBACK="1", PYTHONPATH=os.path.join(lib.REPO, "src"), PYTHONHASHSEED="0")
+        p = subprocess.run([lib.PY, os.path.join(os.path.dirname(os.path.abspath(__file__)), "c06_fb_worker.py"), ip, op],
+                           env=env, capture_output=True, text=True, timeout=900)
+        if p.returncode != 0 or not os.path.exists(op):
+            raise lib.HarnessError("C06 fallback worker failed: " + (p.stderr or "")[-600:])
+        doc = json.load(open(op, encoding="utf-8"))
+    if doc["backend"] != "fallback":
+        raise lib.HarnessError("C06 fallback worker did not run under the fallback back end")
+    rows = []
+    for (descs, close), r in zip(short, doc["results"]):
+        case = {"messages": descs, "close": close, "backend": "fallback"}
+        ctx.case(case, nontrivial=True)
+        ctx.count("backend:fallback")
+        rows.append((case, descs, close, [bytes.fromhex(w) for w in r["writes"]], r["closed"]))
+    judge_all(ctx, drv, rows)
 
 
 def run(ctx):
@@ -546,6 +616,16 @@ def replay(ctx, data):
         print("replay supports (messages, close) cases")
         return 0
     descs, close = case["messages"], bool(case.get("close"))
+    if "child_closes_its_stdout_after" in case:
+        check_stdout_eof(ctx, [(descs, False)])
+        for f in ctx.spec_fail:
+            print("REPRODUCED", json.dumps(f)[:800])
+        return 1 if ctx.spec_fail else 0
+    if case.get("backend") == "fallback":
+        check_fallback_backend(ctx, drv, [(descs, close)])
+        for f in ctx.spec_fail:
+            print("REPRODUCED", json.dumps(f)[:800])
+        return 1 if ctx.spec_fail else 0
     policy = anyio.run(_probe_policy)
     (writes, closed, _idle), = anyio.run(run_sequences, [(descs, close)])
     print("bytes on stdin:", [w for w in writes])
